@@ -647,6 +647,8 @@ class FuseMultiplyAddD(RewritePattern):
         Converts `c = a * b` and `d = e + c` to `d = e + a * b`.
         `c` should not be used anywhere else and both operations must have the
         `contract` fastmath flag set.
+        The fused operation reads `a` and `b` at the position of the addition: once
+        registers are allocated they may already hold other values there.
         """
 
         if not _has_contract_flag(op):
@@ -657,12 +659,16 @@ class FuseMultiplyAddD(RewritePattern):
             isinstance(mul := op.rs2.owner, riscv.FMulDOp)
             and _has_contract_flag(mul)
             and mul.rd.has_one_use()
+            and _is_stable(mul.rs1)
+            and _is_stable(mul.rs2)
         ):
             addend = op.rs1
         elif (
             isinstance(mul := op.rs1.owner, riscv.FMulDOp)
             and _has_contract_flag(mul)
             and mul.rd.has_one_use()
+            and _is_stable(mul.rs1)
+            and _is_stable(mul.rs2)
         ):
             addend = op.rs2
         else:
